@@ -7,8 +7,8 @@ operations that reaches it; ``World.build(seed, pool, hist)`` constructs fresh
 PSyIR objects and replays the history.  From every state at depth < D every
 operation of the alphabet (addchild / insert / __setitem__ / __delitem__ / pop
 / remove / extend / clear / reverse / children-setter / pop_all_children /
-detach / replace_with; indices -5..5; every other node of the world as
-argument) is executed on the real objects and judged:
+detach / replace_with; indices -5..5; every node of the world as argument,
+the target itself and its ancestors included) is executed on the real objects and judged:
 
 * the operation raised  -> the fingerprint (every node's parent link and
   children list, by creation id) must be exactly what it was before;
@@ -20,7 +20,9 @@ argument) is executed on the real objects and judged:
 
 Whether an operation is accepted or rejected is never judged.  States are
 de-duplicated on the fingerprint; ill-formed states are reported and not
-expanded (so one defect does not cascade into thousands of reports).
+expanded (so one defect does not cascade into thousands of reports).  Worlds
+without a pool are explored until the frontier is empty, i.e. for histories
+of any length.
 """
 import itertools
 import operator
@@ -43,9 +45,10 @@ ASSUMPTIONS = [
     "a child is 'of a kind valid at its position' iff the owning class's own "
     "_validate_child(position, child) says so (the per-class rule is the specification; "
     "the ChildrenList / Node editing machinery is what is judged)",
-    "operation targets are the nodes of the seed-rooted tree at depth <= 2 (for detach "
-    "and replace_with: every node of the world); arguments are every node of the world, "
-    "orphan or not, the target itself and its ancestors included",
+    "operation targets are the seed's top node n0 and the nodes at depth <= 2 below it, "
+    "wherever n0 currently is (for detach and replace_with: every node of the world); "
+    "arguments are every node of the world, orphan or not, the target itself and its "
+    "ancestors included",
     "list arguments of extend() and of the children setter have length <= 2 and are "
     "drawn from the current parentless nodes and the target's own current children "
     "(including the same node twice)",
@@ -69,8 +72,8 @@ POOL = ["Literal", "Reference", "Schedule", "Assignment", "Loop", "Return",
 
 # Per tier: list of (pool size, depth bound).
 TIERS = {
-    "quick": [(0, 4), (1, 3), (2, 2)],
-    "thorough": [(0, 6), (1, 4), (2, 3), (3, 3)],
+    "quick": [(0, 8), (1, 3), (2, 2)],
+    "thorough": [(0, 8), (1, 4), (2, 3), (3, 2)],
 }
 
 OP_KINDS = ["addchild", "insert", "setitem", "del", "pop", "remove", "extend",
@@ -264,8 +267,9 @@ class World:
 
     # -- enumeration ------------------------------------------------------
     def targets(self):
-        """Ids of the nodes of the seed-rooted tree at depth <= TARGET_DEPTH
-        (breadth-first, by position; robust against shared nodes)."""
+        """Ids of the seed's top node and of the nodes at depth <=
+        TARGET_DEPTH below it (breadth-first, by position; robust against
+        nodes that are listed more than once)."""
         seen = {0}
         level = [self.nodes[0]]
         out = [0]
@@ -562,6 +566,8 @@ def explore(seed, pool, depth):
                 if verdict:
                     cls = "VIOLATION:" + ("not-atomic" if raised else "ill-formed")
                     stats["nontrivial"] += 1
+                    okey = oper[0] + (":rejected" if raised else ":accepted-changed")
+                    outcomes[okey] = outcomes.get(okey, 0) + 1
                     sig, msg = verdict
                     per_sig[sig] = per_sig.get(sig, 0) + 1
                     if per_sig[sig] <= MAX_VIOL_PER_SIG:
@@ -602,7 +608,10 @@ def explore(seed, pool, depth):
                     snap = world.snapshot()
         frontier = nxt
     # States of the last level are not expanded; their invariant was
-    # evaluated when they were first reached (judge() above).
+    # evaluated when they were first reached (judge() above).  An empty
+    # frontier means every reachable well-formed state has been expanded:
+    # the world is then covered for histories of ANY length.
+    stats["closed"] = 0 if frontier else 1
     return {"stats": stats, "by_depth": by_depth, "classes": classes,
             "outcomes": outcomes, "viol": viol, "per_sig": per_sig,
             "sample": sample}
@@ -616,6 +625,7 @@ def run_case(case):
            "validated": stats["transitions"], "classes": got["classes"],
            "viol": got["viol"],
            "extra": {"expanded_states": stats["expanded"],
+                     "worlds_explored_to_fixed_point": stats["closed"],
                      "states_by_depth": got["by_depth"],
                      "operation_outcomes": got["outcomes"],
                      "violating_transitions_by_sig": got["per_sig"]}}
@@ -626,7 +636,8 @@ def run_case(case):
 
 def finish(_tier, totals):
     """Vacuity guard: every kind of operation must have been accepted with
-    an effect somewhere (and every kind that can be refused, refused)."""
+    an effect somewhere (and every kind that can be refused, refused);
+    violating transitions count as well."""
     outcomes = totals["extra"].get("operation_outcomes", {})
     for kind in OP_KINDS:
         if not outcomes.get(kind + ":accepted-changed"):
